@@ -425,7 +425,7 @@ func init() {
 		return &runner.Spec{
 			Property: "C11", Engine: "kexplore", Level: "model_checking",
 			Jobs: c11Jobs,
-			Rule:   "un-gated kernel (the real Tick start logic) from two rich database states (overdue promises with registrations, expired lock, schedules behind by several occurrences, dispatchable / claimed-and-lapsed tasks, a notification to an unknown receiver) x configuration grid {promise/schedule/task batch size 1,2,100} x {coroutine pool 1,2,5,1000} x {signal timeout 1ms,1s} x {enqueue delay 1s(,10s)} x {completion/submission batch 1,1000}; 20 (40 thorough) cycles each, the clock advancing by the signal timeout per cycle; every order of the sweeps' submissions within deviation bound 1 (2 thorough) and every placement of <=1 (2) store/router/sender failure; an obligation (overdue promise, expired lock, unfired occurrence, undispatched task, lapsed lease) must be discharged within a bound computed from the state; distinct = distinct final databases per configuration",
+			Rule:   "un-gated kernel (the real Tick start logic) from three rich database states (overdue promises with registrations, expired lock, schedules behind by several occurrences, dispatchable / claimed-and-lapsed tasks, a notification to an unknown receiver, an init task whose own timeout has passed in front of a dispatchable one, a task claimed far beyond its timeout) x configuration grid {promise/schedule/task batch size 1,2,100} x {coroutine pool 1,2,5,1000} x {signal timeout 1ms,1s} x {enqueue delay 1s(,10s)} x {completion/submission batch 1,1000}; 20 (40 thorough) cycles each, the clock advancing by the signal timeout per cycle; every order of the sweeps' submissions within deviation bound 1 (2 thorough) and every placement of <=1 (2) store/router/sender failure; an obligation (overdue promise, expired lock, unfired occurrence, undispatched task, lapsed lease) must be discharged within a bound computed from the state; distinct = distinct final databases per configuration",
 			Assume: append([]string{"bounded liveness: 20/40 cycles, obligation bound K = due items + 2*schedules + failures + 4 cycles"}, engineAAssume...),
 			QuickS: 150, ThoroughS: 2400,
 		}
